@@ -127,7 +127,7 @@ theorem C01_step_basic (d : DF) (s : Step) (h : Inv d) (hs : s.WF d.eval.cols)
     · refine inv_of_ready_select _ hi2 hr2 (fillItems d.eval.cols v sub) ?_ _ (by simp [bodySelect, selectAppendDefault])
       rw [fillItems_names, ← he, ready_eval _ hi hr]; exact hi.1.1
 
-  | replace old new sub =>
+  | replace pairs sub =>
     have hop : Op.select ≠ Op.noOp := by decide
     obtain ⟨hi, he⟩ := enter_inv .select d h
     have hr := enter_ready .select hop (by decide) d h
@@ -138,7 +138,7 @@ theorem C01_step_basic (d : DF) (s : Step) (h : Inv d) (hs : s.WF d.eval.cols)
     simp only [DF.apply, tag_replace, tag_select, wrapper_eq _ hop, specStep, hcols]
     refine ⟨?_, ?_, fun _ => by simp⟩
     · rw [← he, ← he2]; exact clause_select _ hi2 hr2 _
-    · refine inv_of_ready_select _ hi2 hr2 (replaceItems d.eval.cols old new sub) ?_ _ (by simp [bodySelect, selectAppendDefault])
+    · refine inv_of_ready_select _ hi2 hr2 (replaceItems d.eval.cols pairs sub) ?_ _ (by simp [bodySelect, selectAppendDefault])
       rw [replaceItems_names, ← he, ready_eval _ hi hr]; exact hi.1.1
   | toDF names =>
     have hop : Op.select ≠ Op.noOp := by decide
@@ -372,11 +372,29 @@ theorem C01_last_orderBy_sorted (T : Table) (steps : List Step) (keys : List Ord
   rw [e]
   exact sort_spec _ keys
 
+/-! ### what `replace` computes per cell: a simultaneous lookup, not a cascade of single replacements -/
+
+/-- the value of the first pair whose key equals the cell (SQL `=`: never for NULL), else the cell itself -/
+def replaceVal (v : Val) : List (Val × Val) → Val
+  | [] => v
+  | (o, n) :: rest => if isTrue (binSem .eq v o) then n else replaceVal v rest
+
+theorem C01_replace_lookup (cols : List Name) (r : Row) (c : Name) (pairs : List (Val × Val)) :
+    eval cols r (replaceExpr c pairs) = replaceVal (lookup cols r c) pairs := by
+  induction pairs with
+  | nil => simp [replaceExpr, eval, replaceVal]
+  | cons p rest ih => obtain ⟨o, n⟩ := p; simp [replaceExpr, eval, replaceVal, ih]
+
+/-- a swap stays a swap: 1 ↦ 2 and 2 ↦ 1 at once (a cascade would send both to 1) -/
+example : replaceVal (.int 1) [(.int 1, .int 2), (.int 2, .int 1)] = .int 2
+        ∧ replaceVal (.int 2) [(.int 1, .int 2), (.int 2, .int 1)] = .int 1
+        ∧ replaceVal .null [(.int 1, .int 2)] = .null := by decide
+
 /-! ### non-vacuity: a concrete program and table meet every hypothesis -/
 
 def exTable : Table := { cols := ["x", "y"], rows := [[.int 1, .null], [.int 1, .null], [.null, .int 3], [.int 2, .int 0]] }
 def exSteps : List Step :=
-  [ .fillna (.int 7) ["y"], .wher (.bin .gt (.col "y") (.lit (.int 0))), .distinct,
+  [ .fillna (.int 7) ["y"], .replace [(.int 1, .int 2), (.int 2, .int 1)] ["x"], .wher (.bin .gt (.col "y") (.lit (.int 0))), .distinct,
     .withColumn "z" (.bin .add (.col "x") (.col "y")), .orderBy [{ name := "z", desc := true, nullsFirst := false }], .limit 2,
     .wher (.not (.isNull (.col "x"))), .drop ["y"] ]
 
@@ -385,7 +403,7 @@ instance decStepsWF : (T : Table) → (steps : List Step) → Decidable (StepsWF
   | T, s :: ss => by unfold StepsWF; exact @instDecidableAnd _ _ _ (decStepsWF (specStep T s) ss)
 
 example : exTable.WF ∧ StepsWF exTable exSteps ∧ noAdjacentOrderBy exSteps = true ∧ exSteps.all Step.inTheorem = true := by decide
-example : ((DF.init exTable).run exSteps).eval = { cols := ["x", "z"], rows := [[.int 1, .int 8]] } := by decide
+example : ((DF.init exTable).run exSteps).eval = { cols := ["x", "z"], rows := [[.int 2, .int 9]] } := by decide
 
 /-! ### the full statement, for the record
 
